@@ -1472,7 +1472,8 @@ type _structIterator struct {
 	nextIndex  int
 
 	// these are only used in repr.go
-	reprEnd int
+	reprEnd   int
+	reprCount int // entries yielded so far by the listpairs iterator (its list indices)
 }
 
 func (w *_structIterator) Next() (key, value datamodel.Node, _ error) {
